@@ -443,6 +443,21 @@ func checkF3(c *fw.Ctx) {
 					if known(fw.CalleeName(dc.Call)) {
 						inRegion = true
 					}
+					// a call through an interface (res.validateRoomID()) whose implementations in the
+					// repository reach a validator
+					if dc.Call.Common().IsInvoke() {
+						m := dc.Call.Common().Method.Name()
+						for _, impl := range c.P.SrcFuncs() {
+							if impl.Name() != m || impl.Signature.Recv() == nil {
+								continue
+							}
+							for _, dc2 := range fw.AllDeepCalls(impl, nil) {
+								if known(fw.CalleeName(dc2.Call)) {
+									inRegion = true
+								}
+							}
+						}
+					}
 				}
 				switch {
 				case len(r.Sites)+r.TailSites > 0 && len(r.Escapes) == 0:
@@ -469,7 +484,21 @@ func checkF3(c *fw.Ctx) {
 				}
 			}
 		}
-		c.Check(ok, rule, "CheckFields rejects events whose content is not a JSON object", c.P.Pos(fn.Pos()), "", "no rejection of non-object content: redaction decodes content into a map, so EventID(), Redact() and Sign() panic on such an event")
+		// the test may sit in a helper: absent from the whole region is the evidence of a violation
+		inRegion := false
+		for _, dc := range fw.AllDeepCalls(fn, stopExported) {
+			if strings.HasSuffix(fw.CalleeName(dc.Call), "gjson.Result).IsObject") {
+				inRegion = true
+			}
+		}
+		switch {
+		case ok:
+			c.Ok(rule, "CheckFields rejects events whose content is not a JSON object", c.P.Pos(fn.Pos()), "")
+		case inRegion:
+			c.Undecided(rule, "CheckFields rejects events whose content is not a JSON object", "IsObject is consulted in a helper of CheckFields; how its answer leads to a refusal was not traced")
+		default:
+			c.Fail(rule, "CheckFields rejects events whose content is not a JSON object", c.P.Pos(fn.Pos()), "no rejection of non-object content: redaction decodes content into a map, so EventID(), Redact() and Sign() panic on such an event")
+		}
 	}
 	// the accessors (and the helpers only they reach) panic only on errors of operations over
 	// the event's own state (same-parse): the guard of each panic tests the failure of a call
